@@ -24,6 +24,9 @@
 static FILE *          g_out;
 static int               g_use_barrier; /* --barrier: every encoder instance is initialised before any of them encodes */
 static pthread_barrier_t g_barrier;
+static int               g_concurrent_init; /* --concurrent-init: with --barrier, still let the instances run svt_av1_enc_init concurrently */
+static int               g_use_end_barrier; /* --barrier-end: no encoder instance is torn down before every one has drained */
+static pthread_barrier_t g_end_barrier;
 static pthread_mutex_t g_mu = PTHREAD_MUTEX_INITIALIZER;
 #define EMIT(...)                      \
     do {                               \
@@ -134,9 +137,16 @@ static void *enc_main(void *arg) {
                 pthread_barrier_wait(&g_barrier);
             return NULL;
         }
+    /* discipline mode (--barrier): instances are configured and initialised ONE AT A TIME (svt_av1_enc_init computes its
+     * fifo port indices in process-global tables) and all of them before any instance encodes */
+    static pthread_mutex_t init_mu = PTHREAD_MUTEX_INITIALIZER;
+    if (g_use_barrier && !g_concurrent_init)
+        pthread_mutex_lock(&init_mu);
     EbErrorType e = svt_av1_enc_set_parameter(h, &cfg);
     if (e == EB_ErrorNone)
         e = svt_av1_enc_init(h);
+    if (g_use_barrier && !g_concurrent_init)
+        pthread_mutex_unlock(&init_mu);
     if (g_use_barrier)
         pthread_barrier_wait(&g_barrier);
     if (e != EB_ErrorNone) {
@@ -186,6 +196,8 @@ static void *enc_main(void *arg) {
     while (!eos && in->rc == 0)
         if (!drain(in, h, 1, &npk, &eos) && !eos)
             break;
+    if (g_use_end_barrier)
+        pthread_barrier_wait(&g_end_barrier);
     e = svt_av1_enc_deinit(h);
     e |= svt_av1_enc_deinit_handle(h);
     for (int i = 0; i < 3; i++) free(mem[i]);
@@ -341,6 +353,8 @@ int main(int argc, char **argv) {
         if (!strcmp(argv[i], "--out") && i + 1 < argc) out = argv[++i];
         else if (!strcmp(argv[i], "--timeout") && i + 1 < argc) timeout_s = atoi(argv[++i]);
         else if (!strcmp(argv[i], "--barrier")) g_use_barrier = 1;
+        else if (!strcmp(argv[i], "--barrier-end")) g_use_end_barrier = 1;
+        else if (!strcmp(argv[i], "--concurrent-init")) g_concurrent_init = 1;
         else if (!strcmp(argv[i], "--inst") && i + 1 < argc && ninst < 16) {
             parse_inst(&inst[ninst], argv[++i]);
             inst[ninst].idx = ninst;
@@ -364,6 +378,14 @@ int main(int argc, char **argv) {
             pthread_barrier_init(&g_barrier, NULL, (unsigned)nenc);
         else
             g_use_barrier = 0;
+    }
+    if (g_use_end_barrier) {
+        int nenc = 0;
+        for (int i = 0; i < ninst; i++) nenc += !inst[i].is_dec;
+        if (nenc > 0)
+            pthread_barrier_init(&g_end_barrier, NULL, (unsigned)nenc);
+        else
+            g_use_end_barrier = 0;
     }
     pthread_t th[16];
     for (int i = 0; i < ninst; i++) pthread_create(&th[i], NULL, inst[i].is_dec ? dec_main : enc_main, &inst[i]);
